@@ -23,6 +23,7 @@
 (* The model follows the *documented* reference (docstrings / comments of   *)
 (* transform.py), not any implementation's formulas:                        *)
 (*   v     = ((sc - z_center) z_size , (fc - y_center) y_size)     Place    *)
+(*           (sc, fc given in thirds of a pixel: cfg.sc / PDEN)              *)
 (*   fl    = [[o11,o12],[o21,o22]] v ;  vec = (0, fl[1], fl[0])    Flip     *)
 (*   xyz   = Rx(tilt_x) Ry(tilt_y) Rz(tilt_z) vec                  Tilt     *)
 (*   xyz_x = xyz_x + distance                                      Shift    *)
@@ -53,29 +54,36 @@
 (*   every denominator divides 5*13*25 = 1625 (1625^2 for A = G d).          *)
 (*                                                                         *)
 (* VARIABLES                                                               *)
+(*   lat    the lattice point being picked (forward machine only)           *)
 (*   cfg    the configuration: lattice point + every derived parameter      *)
-(*   stage  "start" "placed" "flipped" "tilted" "shifted" "origin" "diffed" *)
-(*          "rotated" "projected" | "uncomputed"   (terminal: last two)     *)
-(*   pix    (slow, fast) detector-plane vector after Place                  *)
+(*   stage  "pick" "start" "placed" "flipped" "tilted" "shifted" "origin"   *)
+(*          "diffed" "rotated" "projected" | "uncomputed" (terminal: last 2) *)
+(*   pix    (slow, fast) detector-plane vector after Place (thirds)         *)
 (*   xyz    scaled lab position of the spot                                 *)
 (*   org    scaled grain origin o                                           *)
 (*   d      scaled difference vector (reduced)                              *)
 (*   G      scaled rotation taking lab scattering vectors to g-vectors      *)
 (*   out    results of RotateG / Project / Uncompute                        *)
 (*                                                                         *)
-(* THREE MACHINES (a .cfg selects one through INIT; NEXT is shared)          *)
-(*   InitFwd  lattice: SWITCHSETS (on/off of tilt_x tilt_y tilt_z wedge chi *)
+(* THREE MACHINES (a .cfg selects one: SpecFwd / SpecInv / SpecRaw; Next is  *)
+(* shared)                                                                 *)
+(*   SpecFwd  lattice: SWITCHSETS (on/off of tilt_x tilt_y tilt_z wedge chi *)
 (*            t_x t_y t_z) x FLIPS x SIGNS (omegasign) x SIZES (pixel-size  *)
-(*            sign pairs) x PEAKS x OMEGAS; angle values, wavelength,       *)
-(*            distance and the non-zero translations are a fixed function   *)
-(*            of the lattice point (Salt).  Place Flip Tilt Shift Origin    *)
-(*            Diff RotateG Project.                                         *)
-(*   InitInv  d = a Pythagorean quadruple (|d| integer, so k and g are      *)
-(*            rational), t = 0, (wedge, chi, omega) in INVANG, scale m:     *)
-(*            g = m G k.   Origin Diff RotateG Uncompute.  m = 1: g         *)
+(*            sign pairs) x PEAKS x OMEGAS, picked by PickSwitches,          *)
+(*            PickDetector, PickPeak; angle values, wavelength, distance    *)
+(*            and the non-zero translations are a fixed function of the     *)
+(*            lattice point (Salt, AngleOf, OmegaOf).  Then Place Flip Tilt *)
+(*            Shift Origin Diff RotateG Project.                            *)
+(*            Geometry_fwd_t: whole lattice (262144 terminal states);       *)
+(*            Geometry_fwd_corner: all switch sets x both omega signs at    *)
+(*            the default flip; Geometry_fwd_sim: for `tlc -simulate`.      *)
+(*   SpecInv  d = a Pythagorean quadruple (|d| integer, so k and g are      *)
+(*            rational), t = 0, (wedge, chi, omega) in INVANG (at most two  *)
+(*            Pythagorean angles: InvFits keeps every numerator < 2^30),    *)
+(*            scale m: g = m G k.  Origin Diff RotateG Uncompute.  m = 1: g *)
 (*            diffracts at the generating omega; m = 2: |g| > 2/lambda      *)
 (*            when tth > 60 degrees.                                        *)
-(*   InitRaw  lambda g = (sn/sd) q/|q| given directly (blind-cone vectors   *)
+(*   SpecRaw  lambda g = (sn/sd) q/|q| given directly (blind-cone vectors   *)
 (*            along / near the axis, |g| = 2/lambda, |g| > 2/lambda).       *)
 (*            Uncompute.                                                    *)
 (*                                                                         *)
@@ -88,9 +96,11 @@
 (*   OmegaLaw     G(omega2) = Rz(omega2 - omega1)^T G(omega1) for all omega *)
 (*                of the configuration's omega list                         *)
 (*   OriginLaw    the grain origin is the lab image of t : G o = den^2 t    *)
-(*   Roundtrip    Project returns s = 1 and the integer pixel; for m = 1    *)
-(*                the generating omega solves a sin x + b cos x = c exactly *)
-(*                and the vector is valid                                   *)
+(*   Roundtrip    Project returns s = 1 and the pixel (sc, fc) it started   *)
+(*                from; for m = 1 the generating omega solves               *)
+(*                a sin x + b cos x = c exactly and the vector is valid     *)
+(*                (or the geometry is degenerate: a = b = c = 0, beam along *)
+(*                the rotation axis - found by TLC, not anticipated)        *)
 (*   EwaldBound   valid => |lambda g| <= 2                                  *)
 (*   Emit         prints one JSON record per terminal state                 *)
 (***************************************************************************)
@@ -157,10 +167,13 @@ SwIdx(S) == SwBit(S,1) + 2*SwBit(S,2) + 4*SwBit(S,3) + 8*SwBit(S,4) + 16*SwBit(S
 \* o11 o12 o21 o22 : the 8 signed 2x2 permutation matrices (1 = ImageD11's default)
 FlipList == << <<1,0,0,-1>>, <<1,0,0,1>>, <<-1,0,0,1>>, <<-1,0,0,-1>>,
                <<0,1,1,0>>, <<0,1,-1,0>>, <<0,-1,1,0>>, <<0,-1,-1,0>> >>
-PeakList == << <<7,11>>, <<19,3>>, <<2,25>>, <<30,31>> >>       \* (sc, fc); the first is the beam centre
+\* peak positions (sc, fc) in thirds of a pixel (centroids are not integers; k/3 is not a binary32 number, so
+\* single-precision temporaries are visible): the beam centre, an integer pixel, two fractional positions
+PDEN     == 3
+PeakList == << <<21,33>>, <<57,9>>, <<7,76>>, <<89,92>> >>
 ZC == 7
 YC == 11
-DistList == << 60, 85 >>
+DistList == << 60, 70 >>
 WLList   == << <<1,4>>, <<3,10>>, <<7,8>> >>                   \* wavelength num/den
 TList    == << <<3,-4,5>>, <<-2,6,-1>>, <<3,6,-1>>, <<-2,-4,5>> >>
 Py       == << << <<4,3,5>>, <<3,-4,5>> >>, << <<12,5,13>>, <<5,-12,13>> >>, << <<24,7,25>>, <<-7,24,25>> >> >>
@@ -286,16 +299,16 @@ InitRaw == /\ \E a \in RAWANG, qi \in QUADS, sc \in SCALES :
 \* ---------------------------------------------------------------------------------------
 \* the pipeline, one action per documented stage
 Place == /\ stage = "start" /\ cfg.mode = "fwd"
-         /\ pix' = << (cfg.sc - cfg.zc) * cfg.zs, (cfg.fc - cfg.yc) * cfg.ys >>
+         /\ pix' = << (cfg.sc - PDEN * cfg.zc) * cfg.zs, (cfg.fc - PDEN * cfg.yc) * cfg.ys >>     \* den PDEN
          /\ stage' = "placed" /\ UNCHANGED <<lat, cfg, xyz, org, d, G, out>>
 
 Flip == /\ stage = "placed"
         /\ LET fl == << cfg.o[1] * pix[1] + cfg.o[2] * pix[2], cfg.o[3] * pix[1] + cfg.o[4] * pix[2] >>
-           IN xyz' = << <<0, fl[2], fl[1]>>, 1 >>
+           IN xyz' = << <<0, fl[2], fl[1]>>, PDEN >>
         /\ stage' = "flipped" /\ UNCHANGED <<lat, cfg, pix, org, d, G, out>>
 
 Tilt == /\ stage = "flipped"
-        /\ xyz' = << MV(TiltStack(cfg)[1], xyz[1]), TiltStack(cfg)[2] >>
+        /\ xyz' = << MV(TiltStack(cfg)[1], xyz[1]), TiltStack(cfg)[2] * xyz[2] >>
         /\ stage' = "tilted" /\ UNCHANGED <<lat, cfg, pix, org, d, G, out>>
 
 Shift == /\ stage = "tilted"
@@ -405,8 +418,8 @@ OriginLaw == stage \in {"origin", "diffed"} =>
 Roundtrip ==
    /\ stage = "projected" =>
         /\ out.sden # 0 => MulEq(out.snum, out.snd[2], out.sden, out.snd[1])       \* s = 1
-        /\ out.pixnum[1] = out.pixden * (cfg.sc - cfg.zc) * cfg.zs
-        /\ out.pixnum[2] = out.pixden * (cfg.fc - cfg.yc) * cfg.ys
+        /\ PDEN * out.pixnum[1] = out.pixden * (cfg.sc - PDEN * cfg.zc) * cfg.zs
+        /\ PDEN * out.pixnum[2] = out.pixden * (cfg.fc - PDEN * cfg.yc) * cfg.ys
    /\ (stage = "uncomputed" /\ cfg.mode = "inv" /\ cfg.m = 1) =>
         LET o == Oms(cfg)
             l == out.al * o[2] + out.be * o[1]        \* a sin x + b cos x = c  <=>  2 D l = cn n_omega
@@ -421,7 +434,7 @@ EwaldBound == (stage = "uncomputed" /\ out.valid) =>
 \* ---------------------------------------------------------------------------------------
 B2I(b) == IF b THEN 1 ELSE 0
 ParJson == [ salt |-> cfg.salt, sw |-> cfg.sw, flip |-> cfg.flip, om |-> cfg.om, pk |-> cfg.pk, o |-> cfg.o,
-             sgn |-> cfg.sgn, zs |-> cfg.zs, ys |-> cfg.ys, zc |-> cfg.zc, yc |-> cfg.yc, sc |-> cfg.sc, fc |-> cfg.fc,
+             sgn |-> cfg.sgn, zs |-> cfg.zs, ys |-> cfg.ys, zc |-> cfg.zc, yc |-> cfg.yc, sc |-> cfg.sc, fc |-> cfg.fc, pden |-> PDEN,
              dist |-> cfg.dist, wl |-> cfg.wl, tilt_x |-> cfg.tilt_x, tilt_y |-> cfg.tilt_y, tilt_z |-> cfg.tilt_z,
              wedge |-> cfg.wedge, chi |-> cfg.chi, omega |-> cfg.omega, t |-> cfg.t ]
 Emit ==
